@@ -671,6 +671,35 @@ func PackageVC(w *World, prop string) *FnVC {
 		vc.Obls = append(vc.Obls, &Obligation{Name: "package/globals", Class: "inventory", Props: props, Func: "package ice",
 			Desc: fmt.Sprintf("the package declares no package-level variable outside the reviewed list (%d variables)", n), Pos: gl[2], Guard: True, Goal: True, Claimed: true})
 	}
+	// inventory of a struct's fields: every field is on the reviewed list (state that outlives a call
+	// must be accounted for by the contracts that reset it)
+	for _, sfd := range w.Spec.StructFields {
+		props := strings.Split(sfd[2], ",")
+		if !hasProp(props, prop) {
+			continue
+		}
+		allowed := map[string]bool{}
+		for _, a := range strings.Fields(sfd[1]) {
+			allowed[a] = true
+		}
+		tn, ok := w.TPkg.Scope().Lookup(sfd[0]).(*types.TypeName)
+		if !ok {
+			vc.Obls = append(vc.Obls, &Obligation{Name: "package/structfields:" + sfd[0], Class: "inventory", Props: props, Func: "package ice",
+				Desc: fmt.Sprintf("type %s no longer exists", sfd[0]), Pos: sfd[3], Guard: True, Goal: False, Claimed: true})
+			continue
+		}
+		st, _ := tn.Type().Underlying().(*types.Struct)
+		n := 0
+		for i := 0; st != nil && i < st.NumFields(); i++ {
+			n++
+			if f := st.Field(i); !allowed[f.Name()] {
+				vc.Obls = append(vc.Obls, &Obligation{Name: "package/structfields:" + sfd[0] + "." + f.Name(), Class: "inventory", Props: props, Func: "package ice",
+					Desc: fmt.Sprintf("field %s.%s (%s) is not on the reviewed list of the type's state", sfd[0], f.Name(), f.Type()), Pos: sfd[3], Guard: True, Goal: False, Claimed: true})
+			}
+		}
+		vc.Obls = append(vc.Obls, &Obligation{Name: "package/structfields:" + sfd[0], Class: "inventory", Props: props, Func: "package ice",
+			Desc: fmt.Sprintf("type %s has no field outside the reviewed list (%d fields)", sfd[0], n), Pos: sfd[3], Guard: True, Goal: True, Claimed: true})
+	}
 	// inventory of range-over-map loops (iteration order is unspecified) in the code reachable from a root
 	for _, mr := range w.Spec.MapRanges {
 		props := strings.Split(mr[2], ",")
